@@ -1006,6 +1006,9 @@ func ParseCIDR(cidr string) ([]*net.IPNet, error) {
 		}
 		ret = append(ret, n)
 	}
+	if len(ret) == 0 {
+		return nil, fmt.Errorf("invalid IP range %q: start and end IPs must belong to the same IP family", cidr)
+	}
 	return ret, nil
 }
 
